@@ -9,6 +9,8 @@
      retv     the Python value returned (ConvertItem decides whether it is convertible)
      haserr, errv   error= given at creation / its value (convertible by construction)
      onerr    "absent" | "none" (returns None) | "value" (returns onv) | "raise"
+              (onv ranges over the same value classes as retv, including -- for struct results --
+              list / dict initializers naming fewer fields than the struct has)
    IDEAL (the property):  Want(cf) is what the C caller must receive,  NoEscape: when control is
    back in C no Python exception is pending.
    IMPLEMENTATION MODEL: the result buffer the C side reads from, operated on exactly as
@@ -29,11 +31,17 @@ Put(b, bytes) == TLCEval([i \in 1..Len(b) |-> IF i <= Len(bytes) THEN bytes[i] E
 
 \* convert_from_object_fficallback(result, ctype, pyobj, encode_result_for_libffi), :6076
 \* returns [ok, b]: success flag and the buffer afterwards
-FfiCb(b, t, v, widen) ==
+\* site = "create" (error=), "body" (the function's return value) or "onerror" (onerror's return
+\* value): the three callers of the conversion.  All three must start from a zeroed struct: at
+\* "onerror" the buffer holds the error bytes just memcpy'd, not garbage -- an initializer naming
+\* fewer fields than the struct has would otherwise deliver a blend of onerror's value and error=.
+FfiCb(b, t, v, widen, site) ==
     LET r == ConvRes(t, v)
         \* at "skip:" a struct result is zeroed first (b07fef6), then the initializer's fields are
-        \* written one by one; before that fix the fields not named kept the buffer's garbage
-        st == StructStore(b, t, v, Variant # "struct_nozero")
+        \* written one by one; before that fix the fields not named kept the buffer's garbage.
+        \* variant "struct_zero_body_only": the memset done by the caller, on the normal path only
+        st == StructStore(b, t, v, /\ Variant # "struct_nozero"
+                                   /\ (Variant = "struct_zero_body_only" => site = "body"))
         plain == IF t.k = "struct" THEN [ok |-> st.ok, b |-> st.b]
                  ELSE IF r.ok THEN [ok |-> TRUE, b |-> Put(b, ImgOf(t, r.c))]
                  ELSE [ok |-> FALSE, b |-> b]
@@ -61,7 +69,7 @@ Init == /\ cf \in Cfgs
 Create == /\ pc = "create"
           /\ rawerr' = IF cf.rt.k = "void" THEN Zeros(FfiArg)
                        ELSE LET z == IF IsPtr(cf.rt) THEN <<Null>> ELSE Zeros(SlotLen(cf.rt)) IN
-                            IF cf.haserr THEN FfiCb(z, cf.rt, cf.errv, Widen).b ELSE z
+                            IF cf.haserr THEN FfiCb(z, cf.rt, cf.errv, Widen, "create").b ELSE z
           /\ pc' = "ready" /\ UNCHANGED <<cf, buf, exc, reports>>
 
 \* C calls: libffi / the generated helper hands over an uninitialised result slot
@@ -73,7 +81,7 @@ Invoke == /\ pc = "ready"
 Body == /\ pc = "body"
         /\ IF cf.body = "raise"
            THEN exc' = TRUE /\ pc' = "error" /\ UNCHANGED buf
-           ELSE LET r == FfiCb(buf, cf.rt, cf.retv, Widen) IN
+           ELSE LET r == FfiCb(buf, cf.rt, cf.retv, Widen, "body") IN
                 /\ buf' = r.b
                 /\ exc' = ~r.ok
                 /\ pc' = IF r.ok THEN "done" ELSE "error"
@@ -89,7 +97,7 @@ Error == /\ pc = "error"
               [] cf.onerr = "none" ->
                    buf' = b1 /\ exc' = FALSE /\ UNCHANGED reports
               [] cf.onerr = "value" ->
-                   LET r == FfiCb(b1, cf.rt, cf.onv, Widen) IN
+                   LET r == FfiCb(b1, cf.rt, cf.onv, Widen, "onerror") IN
                    /\ buf' = r.b
                    /\ exc' = FALSE                          \* a failing conversion is reported, then cleared
                    /\ reports' = IF r.ok THEN reports ELSE reports + 2
